@@ -263,3 +263,104 @@ def heap():
     return {'_Znwm': op_new, '_Znam': op_new, '_ZdlPv': op_delete, '_ZdaPv': op_delete, '_ZdlPvm': op_delete,
             '_ZSt20__throw_length_errorPKc': throw_length_error,
             '_ZSt28__throw_bad_array_new_lengthv': throw_length_error, '_ZSt17__throw_bad_allocv': throw_length_error}
+
+
+# ------------------------------------------------------------------------------------ std::unordered_map<string_view, E>
+UNODE_VAL = 8      # _Hash_node: next pointer, then the value
+
+
+def _sv_bytes(ex, st, p):
+    from . import strings as SS
+    return SS.sv_at(ex, st, p)
+
+
+def umap_ctor_il(ex, st, fr, ins, name, argv):
+    this, ilp, iln = argv[0], argv[1], argv[2]
+    if not tm.is_ic(iln):
+        raise Unsupported('symbolic initializer_list length')
+    pty = _pair_type(ex, name)
+    stride = ex.sizeof(pty)
+    entries = []
+    seen = set()
+    for i in range(iln.args[0]):
+        src = Ptr(ilp.region, ilp.off + i * stride)
+        key = _sv_bytes(ex, st, src)
+        if key in seen:
+            continue
+        seen.add(key)
+        rid = st.new_region(UNODE_VAL + stride + 8, 'heap', 'umap-node')
+        ex.memcpy(st, Ptr(rid, UNODE_VAL), src, stride)
+        entries.append((key, rid))
+    tb = dict(_tables(st))
+    tb[(this.region, this.off)] = {'kind': 'umap', 'pair': pty, 'entries': entries, 'name': st.regions[this.region].name}
+    st.extra['tables'] = tb
+    st.events.append(('table-init', st.regions[this.region].name, len(entries)))
+    return None
+
+
+def any_string(ex, st, fr, ins, name, argv):
+    """phqv_any_string(): a string_view denoting an ARBITRARY byte string (any length, any bytes, embedded NUL
+    included).  Its only observable use is as a key of std::unordered_map::find, whose summary forks into
+    'equals spelling i' for every entry and 'equals none of them'."""
+    rid = st.new_region(1 << 20, 'arg', 'any-string')
+    n = tm.arg('i64', 'anylen')
+    r = ins.a[0]
+    return ('agg', [n, Ptr(rid, 0)])
+
+
+def umap_find(ex, st, fr, ins, name, argv):
+    this, kp = argv[0], argv[1]
+    tb = _tables(st).get((this.region, this.off))
+    if tb is None:
+        st.ub.append(('lookup in a table before its dynamic initialisation', st.regions[this.region].name))
+        st.status = 'uninitialised-table'
+        return None
+    q = ex.load(st, Ptr(kp.region, kp.off + 8), ('ptr', ('int', 8)))
+    if isinstance(q, Ptr) and q.region is not None and st.regions[q.region].name == 'any-string':
+        pend = st.extra.get('anystr')
+        if pend is not None:
+            # the arbitrary string was already compared: stay on the same case
+            k = pend
+            if k is None:
+                return NULL
+            for key, rid in tb['entries']:
+                if key == k:
+                    return Ptr(rid, 0)
+            return NULL
+        out = []
+        res, normal = ins.res, ins.a[3]
+        for key, rid in tb['entries']:
+            s2 = st.clone()
+            s2.extra['anystr'] = key
+            s2.events.append(('any-string-is', key))
+            _finish(ex, s2, res, Ptr(rid, 0), normal)
+            out.append(s2)
+        st.extra['anystr'] = None
+        st.events.append(('any-string-is', None))
+        _finish(ex, st, res, NULL, normal)
+        out.append(st)
+        return out
+    key = _sv_bytes(ex, st, kp)
+    st.events.append(('lookup', tb['name'], key))
+    for k, rid in tb['entries']:
+        if k == key:
+            return Ptr(rid, 0)
+    return NULL
+
+
+def is_umap_ctor(n):
+    return n.startswith('_ZNSt13unordered_mapI') and 'ESt16initializer_listI' in n and ('EC2E' in n or 'EC1E' in n)
+
+
+def is_umap_find(n):
+    return (n.startswith('_ZNKSt13unordered_mapI') or n.startswith('_ZNSt13unordered_mapI')) and _re.search(r'E4findER', n) is not None
+
+
+_containers0 = containers
+
+
+def containers():
+    d = _containers0()
+    d['__patterns__'] = d['__patterns__'] + [(is_umap_ctor, umap_ctor_il), (is_umap_find, umap_find)]
+    d['phqv_any_string'] = any_string
+    return d
